@@ -1,34 +1,10 @@
-import SC.Proofs.SrcFuns
+import SC.Proofs.SrcBaseB
 /-!
 The theorems of `Proofs/SrcFuns.lean` for the regenerated `bytcase/bytcase.go` (`Gen.Src.byt`): generated from that file by
 renaming (the wrappers of the two packages have the same go/ssa shape; where they do not, this file stops compiling).
 -/
 namespace GoSsa.Byt
 open GoSsa Gen.Src
-
-abbrev P := Gen.Src.byt
-
-/-! ### look-up facts for the callees -/
-theorem find_Compare : P.find? (fun fn => fn.name == "Compare") = some byt_Compare := by rfl
-theorem nb_Compare (a h) : builtin true "Compare" a h = none := by rfl
-theorem find_hasPrefixUnicode : P.find? (fun fn => fn.name == "hasPrefixUnicode") = some byt_hasPrefixUnicode := by rfl
-theorem nb_hasPrefixUnicode (a h) : builtin true "hasPrefixUnicode" a h = none := by rfl
-theorem find_hasSuffixUnicode : P.find? (fun fn => fn.name == "hasSuffixUnicode") = some byt_hasSuffixUnicode := by rfl
-theorem nb_hasSuffixUnicode (a h) : builtin true "hasSuffixUnicode" a h = none := by rfl
-theorem find_Index : P.find? (fun fn => fn.name == "Index") = some byt_Index := by rfl
-theorem nb_Index (a h) : builtin true "Index" a h = none := by rfl
-theorem find_IndexAny : P.find? (fun fn => fn.name == "IndexAny") = some byt_IndexAny := by rfl
-theorem nb_IndexAny (a h) : builtin true "IndexAny" a h = none := by rfl
-theorem find_IndexRune : P.find? (fun fn => fn.name == "IndexRune") = some byt_IndexRune := by rfl
-theorem nb_IndexRune (a h) : builtin true "IndexRune" a h = none := by rfl
-theorem find_indexRune : P.find? (fun fn => fn.name == "indexRune") = some byt_indexRune := by rfl
-theorem nb_indexRune (a h) : builtin true "indexRune" a h = none := by rfl
-theorem find_indexByte : P.find? (fun fn => fn.name == "indexByte") = some byt_indexByte := by rfl
-theorem nb_indexByte (a h) : builtin true "indexByte" a h = none := by rfl
-theorem find_TrimPrefix : P.find? (fun fn => fn.name == "TrimPrefix") = some byt_TrimPrefix := by rfl
-theorem nb_TrimPrefix (a h) : builtin true "TrimPrefix" a h = none := by rfl
-theorem find_indexRuneCase : P.find? (fun fn => fn.name == "indexRuneCase") = some byt_indexRuneCase := by rfl
-theorem nb_indexRuneCase (a h) : builtin true "indexRuneCase" a h = none := by rfl
 
 /-! ### leaf functions -/
 
